@@ -47,7 +47,7 @@ func (k msgServer) UpsertTokenInfo(goCtx context.Context, msg *types.MsgUpsertTo
 		tokenInfo.Website = msg.Website
 		tokenInfo.Social = msg.Social
 		if !tokenInfo.SupplyCap.IsZero() &&
-			(tokenInfo.SupplyCap.LT(msg.SupplyCap) || msg.SupplyCap.IsZero()) {
+			(tokenInfo.SupplyCap.LT(msg.SupplyCap) || !msg.SupplyCap.IsPositive()) {
 			return nil, types.ErrSupplyCapShouldNotBeIncreased
 		}
 		tokenInfo.SupplyCap = msg.SupplyCap
